@@ -6,6 +6,9 @@ Functions under contract (real source, every run)
       D.<class>   every value class's from_ical raises only ValueError (subclasses included)
       L.*         Contentline.parts, Parameters.from_ical, Contentlines.from_ical raise only ValueError
       T.*         TZP.timezone / ZONEINFO.timezone / PYTZ.timezone raise nothing (unknown ids give None)
+      K.<class>   the value constructors the loop calls raise only ValueError: vDDDTypes / vDDDLists / vPeriod by the pyvc
+                  obligations of props/C02 on the real __init__ bodies (class lattice: attribute access on a date vs a datetime,
+                  TypeError / OverflowError of the arithmetic), the other classes statically
   isolation (pyvc symbolic execution of ONE iteration of the real Component.from_ical loop, property-line branch, callees
   through the raises contracts above: parts / decoder / value constructor either return or raise ValueError):
       I.lenient   in a component with ignore_exceptions the ValueError never escapes: exactly one entry is appended to
@@ -64,6 +67,78 @@ def raises_obligations(rep):
     rep.extra["assumed_raises_table_entries_used"] = sorted(A.assumed_used)
     rep.extra["unresolved_calls"] = sorted(A.unresolved)
     return obs, A
+
+
+def constructor_obligations(rep, A):
+    """K.*: the value constructors the parse loop calls -- factory(decoded value), ONE positional argument -- raise only
+    ValueError.  The date/time classes (arithmetic, attribute access on dates vs datetimes) are decided by the pyvc obligations of
+    props/C02 on the real __init__ bodies; the others by the static analysis, specialised to the one-argument call shape."""
+    import copy
+    from props import C02
+    obs = []
+    try:
+        types_map, reg, fp_ok = C02.read_tables()
+    except E.Undecided as u:
+        return [Obligation(f"{PID}.K.constructors", "prop:TypesFactory", "fin", UNDECIDED, detail=str(u))]
+    by_pyvc = {"vDDDTypes": (C02.vddd_obligations, "C02.V1.vDDDTypes.raises_only_ValueError"),
+               "vDDDLists": (C02.vdddlists_obligations, "C02.V2.vDDDLists.raises_only_ValueError"),
+               "vPeriod": (C02.vperiod_obligations, "C02.V3.vPeriod.raises_only_ValueError")}
+    for cn in sorted(set(reg.values())):
+        oid = f"{PID}.K.{cn}.constructor_raises_only_ValueError"
+        if cn in by_pyvc:
+            fnc, want = by_pyvc[cn]
+            try:
+                got = [o for o in fnc(rep, rep.tier) if o.oid == want]
+            except E.Undecided as u:
+                got = []
+            if not got:
+                obs.append(Obligation(oid, f"prop:{cn}.__init__", "z3", UNDECIDED, detail="the pyvc obligation was not generated"))
+                continue
+            o = got[0]
+            o.oid = oid
+            obs.append(o)
+            continue
+        esc = set()
+        found = False
+        lines = None
+        for name in ("__new__", "__init__"):
+            r = A.method(cn, name)
+            if not r:
+                continue
+            found = True
+            node = r[1]
+            if node.args.vararg is not None:
+                # the loop passes exactly one argument: `if len(<vararg>) == 1:` takes its body
+                node = copy.deepcopy(node)
+                va = node.args.vararg.arg
+
+                class Spec(ast.NodeTransformer):
+                    def visit_If(self, n):
+                        self.generic_visit(n)
+                        if ast.unparse(n.test) == f"len({va}) == 1":
+                            return n.body
+                        return n
+
+                    def visit_Subscript(self, n):
+                        self.generic_visit(n)
+                        if ast.unparse(n) == f"{va}[0]":
+                            return ast.copy_location(ast.Name(id="value", ctx=n.ctx), n)      # the one argument
+                        return n
+                node = ast.fix_missing_locations(Spec().visit(node))
+                esc |= A.escaping(r[0] + "[one argument]", node, r[2])
+            else:
+                esc |= A.escaping(r[0], r[1], r[2])
+            lines = source.lines_of(r[1])
+        if not found:
+            esc |= {"ValueError"} if cn in ("vInt", "vFloat") else set()
+        bad = sorted(x for x in esc if x == RA.UNKNOWN or not RA.is_sub(x, "ValueError"))
+        ob = Obligation(oid, f"prop:{cn}", "fin", PROVED if not bad else REFUTED, lines=lines,
+                        detail=f"may raise {sorted(esc) or 'nothing'}" if not bad else f"may raise {bad} besides ValueError")
+        if bad:
+            ob.shape_only = True
+            ob.bad_classes = bad
+        obs.append(ob)
+    return obs
 
 
 # ---------------------------------------------------------------------------------------------------
@@ -230,6 +305,12 @@ def run(rep: common.Report):
         import traceback
         traceback.print_exc()
         obs = [Obligation(f"{PID}.D.engine", "prop", "fin", ERROR, detail=repr(e))]
+    try:
+        obs += constructor_obligations(rep, A)
+    except Exception as e:  # noqa
+        import traceback
+        traceback.print_exc()
+        obs.append(Obligation(f"{PID}.K.engine", "prop", "fin", ERROR, detail=repr(e)))
     try:
         obs += isolation_obligations(rep.tier)
     except Exception as e:  # noqa
